@@ -48,7 +48,7 @@ var policies = []*metav1.DeletionPropagation{
 }
 
 func genRef(t *rapid.T, label string) resRef {
-	r := resRef{ID: rapid.SampledFrom([]int{0, 0, 0, 1, 2, 3}).Draw(t, label+".id"), Ver: rapid.SampledFrom(versions).Draw(t, label+".ver")}
+	r := resRef{ID: rapid.SampledFrom([]int{0, 0, 0, 1, 2, 3, 4}).Draw(t, label+".id"), Ver: rapid.SampledFrom(versions).Draw(t, label+".ver")}
 	switch rapid.IntRange(0, 4).Draw(t, label+".mode") {
 	case 0, 1:
 		r.ByName = true
@@ -59,7 +59,7 @@ func genRef(t *rapid.T, label string) resRef {
 	}
 	if r.Sel {
 		r.Tier = rapid.SampledFrom([]string{"x", "y"}).Draw(t, label+".tier")
-		r.MatchCtrl = rapid.SampledFrom([]*bool{nil, ptr.To(true), ptr.To(false)}).Draw(t, label+".matchCtrl")
+		r.MatchCtrl = rapid.SampledFrom([]*bool{nil, ptr.To(true), ptr.To(true), ptr.To(false)}).Draw(t, label+".matchCtrl")
 	}
 	return r
 }
@@ -126,7 +126,7 @@ func (m *machine) opCreateResource(t *rapid.T) bool {
 		m.w.rec.Label("resource:created-with-marker")
 	}
 	meta := map[string]any{"name": id.Name, "labels": lbls}
-	if o := rapid.SampledFrom([]string{"", "o1", "o1", "o2"}).Draw(t, "owner"); o != "" {
+	if o := rapid.SampledFrom([]string{"", "", "o1", "o1", "o2"}).Draw(t, "owner"); o != "" {
 		// A composed resource: controlled by the XR stand-in, labelled and annotated
 		// the way the composers render it.
 		meta["ownerReferences"] = []any{m.w.ownerRef(o)}
@@ -345,7 +345,7 @@ func wrap(f func(*rapid.T) bool) func(*rapid.T) {
 	}
 }
 
-const machineRule = "rapid state machine over 4 shared cluster-scoped resource identities (2 groups, 2 kinds, 2 served versions) and up to 4 Usages (v1alpha1/v1beta1; of/by by resourceRef, by resourceSelector with matchLabels and matchControllerRef true/false/unset, or both; reason-only; replayDeletion; composed or not): create/delete of resources and Usages in any order, DELETE requests in either version with every propagation policy through usage.yaml's objectSelector/rules and the real handler, real Usage reconciles with 0-2 injected faults, reconciles parked before a drawn API call while 1-3 other actions run, GC steps, the P&T composer's apply of composed Usages, and both composers' garbage collection (real GarbageCollectingAssociator.AssociateTemplates with named templates / real DeletingComposedResourceGarbageCollector) of composed resources whose template was dropped, their Update watched by the marker monitors and their Delete sent through the same admission path; non-trivial = a DELETE while >=2 Usages name the resource, or in another version than a naming Usage, or while a Ready Usage protects it, or a parked (interleaved) reconcile, or a composer GC of a protected resource"
+const machineRule = "rapid state machine over 5 shared cluster-scoped resource identities (2 groups, 2 kinds, 3 names of one kind, 2 served versions; each created uncontrolled or controlled by one of two owners) and up to 4 Usages (v1alpha1/v1beta1; of/by by resourceRef, by resourceSelector with matchLabels and matchControllerRef true/false/unset, or both; reason-only; replayDeletion; composed or not): create/delete of resources and Usages in any order, DELETE requests in either version with every propagation policy through usage.yaml's objectSelector/rules and the real handler, real Usage reconciles with 0-2 injected faults, reconciles parked before a drawn API call while 1-3 other actions run, GC steps, the P&T composer's apply of composed Usages, and both composers' garbage collection (real GarbageCollectingAssociator.AssociateTemplates with named templates / real DeletingComposedResourceGarbageCollector) of composed resources whose template was dropped, their Update watched by the marker monitors and their Delete sent through the same admission path; non-trivial = a DELETE while >=2 Usages name the resource, or in another version than a naming Usage, or while a Ready Usage protects it, or a parked (interleaved) reconcile, or a composer GC of a protected resource"
 
 // TestVerifC19Machine is the main check: all four clauses over generated histories.
 func TestVerifC19Machine(t *testing.T) {
@@ -495,6 +495,54 @@ func TestVerifC19Pinned(t *testing.T) {
 		rec.NonTrivial("composed-v1alpha1", func() any { return w.hist })
 		if len(*vios) > 0 {
 			t.Fatalf("%s", strings.Join(*vios, "\n"))
+		}
+	})
+	t.Run("uncontrolled-candidate-for-controlled-usage-with-matchControllerRef", func(t *testing.T) {
+		// Class raised by a seeded change: a Usage composed by an XR (it has a
+		// controller) selects with matchControllerRef: true while a label-matching
+		// resource WITHOUT any controller exists and sorts first. "MatchControllerRef
+		// ensures an object with the same controller reference as the selecting object
+		// is selected": the uncontrolled one must never be picked, for spec.of or spec.by.
+		owned := func(w *world, id int, owner string) verifsim.Obj {
+			r := thing(idents[id], "v1")
+			if owner != "" {
+				verifsim.Meta(r)["ownerReferences"] = []any{w.ownerRef(owner)}
+			}
+			return r
+		}
+		sel := func(id int) resRef { return resRef{ID: id, Ver: "v1", Sel: true, Tier: "x", MatchCtrl: ptr.To(true)} }
+		for _, rightExists := range []bool{true, false} {
+			for _, which := range []string{"of", "by"} {
+				rec.Eval()
+				w, vios := collectingWorld(rec)
+				w.mustCreate(owned(w, 0, "")) // Thing a: label matches, no controller, sorts first
+				if rightExists {
+					w.mustCreate(owned(w, 1, "o1")) // Thing b: the one the selector selects
+				}
+				w.mustCreate(owned(w, 4, "o2")) // Thing c: controlled by somebody else
+				w.mustCreate(thing(idents[2], "v1"))
+				us := usageSpec{Name: "u0", APIVer: "v1beta1", Owner: "o1", Composed: true, Reason: true}
+				if which == "of" {
+					us.Of = sel(0)
+				} else {
+					us.Of, us.By = resRef{ID: 2, Ver: "v1", ByName: true}, ptr.To(sel(0))
+				}
+				w.mustCreate(w.renderUsage(us))
+				out, _ := w.reconcile("u0", nil)
+				u := w.sim.Get(usageKey("u0"))
+				nk, resolved, _ := named(u, which)
+				ctx := fmt.Sprintf("spec.%s, right-one-exists=%v", which, rightExists)
+				if len(*vios) > 0 {
+					t.Fatalf("%s: %s", ctx, strings.Join(*vios, "\n"))
+				}
+				if rightExists && (!resolved || nk != idents[1].key() || !isReady(u)) {
+					t.Fatalf("%s: expected the Usage to resolve to %s and become Ready; resolved=%v to %s ready=%v err=%v", ctx, idents[1].key(), resolved, nk, isReady(u), out.err)
+				}
+				if !rightExists && (resolved || isReady(u) || out.err == nil) {
+					t.Fatalf("%s: no resource has the Usage's controller, so it must neither resolve nor become Ready; resolved=%v to %s ready=%v err=%v", ctx, resolved, nk, isReady(u), out.err)
+				}
+				rec.NonTrivial("uncontrolled-candidate|"+ctx, func() any { return w.hist })
+			}
 		}
 	})
 	t.Run("composer-gc-of-a-protected-resource", func(t *testing.T) {
